@@ -283,6 +283,7 @@ var specC36 = vstat.Spec[c36Case]{
 	Assumptions: []string{"the eventual clause is waited for with a 10 s bound; a longer stall would be reported as a violation"},
 	Gen:         genC36,
 	Check:       checkC36,
+	Inflight:    true,
 }
 
 func TestC36(t *testing.T)       { vstat.Check(t, specC36) }
